@@ -152,7 +152,7 @@ class BOSSEnsemble(BaseClassifier):
         win_inc = int((max_window - self.min_window) / max_window_searches)
         if win_inc < 1:
             win_inc = 1
-        if self.min_window > max_window + 1:
+        if self.min_window > max_window:
             raise ValueError(
                 f"Error in BOSSEnsemble, min_window ="
                 f"{self.min_window} is bigger"
